@@ -28,12 +28,14 @@ impl Wake for CountWaker {
 /// to_future: events delivered before, between and after polls
 fn c14_to_future(max_items: u32) {
   let script = draw_script(max_items, true);
-  e::note(format!("to_future ; input [{}]", script.show()));
+  // source: a parked create handle, or a Subject on which this conversion is one subscriber among several
+  let sk = e::choose(2) * 2;
+  e::note(format!("to_future over {} ; input [{}]", if sk == 0 { "a create handle" } else { "a Subject with sibling subscribers" }, script.show()));
   let cw = Arc::new(CountWaker(AtomicUsize::new(0)));
   let waker = Waker::from(cw.clone());
   let mut cx = Context::from_waker(&waker);
-  let mut fut = Box::pin(cat::hot().to_future());
-  let mut h = cat::handle(0);
+  let mut fut = Box::pin(cat::hot_kind(0, sk).to_future());
+  cat::add_late_sibling(0);
   let mut result: Option<Result<Result<Val, Val>, ObservableError>> = None;
   let mut last_pending_wakes: Option<usize> = None; // wake count when the last poll returned Pending
   let mut poll_now = |fut: &mut Pin<Box<rxrust::ops::future::ObservableFuture<Val, Val>>>, result: &mut Option<_>, lp: &mut Option<usize>| {
@@ -56,7 +58,7 @@ fn c14_to_future(max_items: u32) {
       poll_now(&mut fut, &mut result, &mut last_pending_wakes);
     }
     e::note(world::show_ev(&ev));
-    feed(&mut h, &ev);
+    cat::feed_hot(0, &ev);
   }
   let terminated = !matches!(script.term, Tm::None);
   if terminated && result.is_none() {
@@ -93,12 +95,13 @@ fn c14_to_future(max_items: u32) {
 
 fn c14_to_stream(max_items: u32) {
   let script = draw_script(max_items, true);
-  e::note(format!("to_stream ; input [{}]", script.show()));
+  let sk = e::choose(2) * 2;
+  e::note(format!("to_stream over {} ; input [{}]", if sk == 0 { "a create handle" } else { "a Subject with sibling subscribers" }, script.show()));
   let cw = Arc::new(CountWaker(AtomicUsize::new(0)));
   let waker = Waker::from(cw.clone());
   let mut cx = Context::from_waker(&waker);
-  let mut st = Box::pin(cat::hot().to_stream());
-  let mut h = cat::handle(0);
+  let mut st = Box::pin(cat::hot_kind(0, sk).to_stream());
+  cat::add_late_sibling(0);
   let mut got: Vec<Ev> = vec![];
   let mut ended = false;
   let mut last_pending_wakes: Option<usize> = None;
@@ -135,7 +138,7 @@ fn c14_to_stream(max_items: u32) {
       poll_all!();
     }
     e::note(world::show_ev(&ev));
-    feed(&mut h, &ev);
+    cat::feed_hot(0, &ev);
   }
   let terminated = !matches!(script.term, Tm::None);
   if terminated && !ended {
@@ -168,18 +171,35 @@ fn c14_to_stream(max_items: u32) {
 /// producer's terminal interleaved at the hooked yield points of the waiter's poll.
 fn c14_complete_status(max_items: u32, threads_form: bool) {
   let script = draw_script(max_items, true);
-  e::note(format!("complete_status{} ; input [{}]", if threads_form { " (threads source)" } else { "" }, script.show()));
+  let sk = e::choose(2) * 2;
+  // an operator that emits on completion above the status stage, one that finishes early below it
+  let pre_collect = e::choose_bool();
+  let post_take = e::choose_bool();
+  e::note(format!("{}complete_status{}{} over {} ; input [{}]", if pre_collect { "collect()." } else { "" }, if post_take { ".take(1)" } else { "" }, if threads_form { " (threads source)" } else { "" }, if sk == 0 { "a create handle" } else { "a Subject with sibling subscribers" }, script.show()));
   let probe = fresh_probe();
   let status;
   if threads_form {
-    let (o, st) = cat::hot_t().complete_status();
-    let _u = o.actual_subscribe(probe);
+    let src = cat::hot_kind_t(0, sk);
+    let src: cat::ObsT = if pre_collect { src.collect::<Vec<Val>>().map(|v: Vec<Val>| Val::L(v)).box_it() } else { src };
+    let (o, st) = src.complete_status();
+    if post_take {
+      std::mem::forget(o.take(1).actual_subscribe(probe));
+    } else {
+      std::mem::forget(o.actual_subscribe(probe));
+    }
     status = st;
   } else {
-    let (o, st) = cat::hot().complete_status();
-    let _u = o.actual_subscribe(probe);
+    let src = cat::hot_kind(0, sk);
+    let src: cat::Obs = if pre_collect { src.collect::<Vec<Val>>().map(|v: Vec<Val>| Val::L(v)).box_it() } else { src };
+    let (o, st) = src.complete_status();
+    if post_take {
+      std::mem::forget(o.take(1).actual_subscribe(probe));
+    } else {
+      std::mem::forget(o.actual_subscribe(probe));
+    }
     status = st;
   }
+  cat::add_late_sibling(0);
   let cw = Arc::new(CountWaker(AtomicUsize::new(0)));
   let waker = Waker::from(cw.clone());
   let mut cx = Context::from_waker(&waker);
@@ -233,11 +253,9 @@ fn c14_complete_status(max_items: u32, threads_form: bool) {
               f2.set(true);
               e::note(format!("  [producer thread, at waiter's yield point] {}", world::show_ev(&ev)));
               if threads_form {
-                let mut h = cat::handle_t(0);
-                feed_t(&mut h, &ev);
+                cat::feed_hot_t(0, &ev);
               } else {
-                let mut h = cat::handle(0);
-                feed(&mut h, &ev);
+                cat::feed_hot(0, &ev);
               }
             }
           }))
@@ -275,11 +293,9 @@ fn c14_complete_status(max_items: u32, threads_form: bool) {
     if i < n {
       e::note(world::show_ev(&evs[i]));
       if threads_form {
-        let mut h = cat::handle_t(0);
-        feed_t(&mut h, &evs[i]);
+        cat::feed_hot_t(0, &evs[i]);
       } else {
-        let mut h = cat::handle(0);
-        feed(&mut h, &evs[i]);
+        cat::feed_hot(0, &evs[i]);
       }
     }
     i += 1;
@@ -308,7 +324,9 @@ fn c14_complete_status(max_items: u32, threads_form: bool) {
     Tm::Error(_) => (true, false, true),
   };
   if (closed, completed, errored) != want {
-    e::fail("complete_status/flags", || format!("source [{}]: is_closed={} is_completed={} error_occur={}", script.show(), closed, completed, errored));
+    // the configuration is part of the key: the same symptom in another composition is another finding
+    let key = format!("complete_status/flags/{}{}{}", if sk == 0 { "handle" } else { "subject" }, if pre_collect { ".collect" } else { "" }, if post_take { ".take" } else { "" });
+    e::fail(&key, || format!("source [{}]: is_closed={} is_completed={} error_occur={}", script.show(), closed, completed, errored));
   }
   if ready && !terminated {
     e::fail("complete_status/ready-before-terminal", || "the wait future resolved although the source has not terminated".to_string());
@@ -326,7 +344,19 @@ fn c14_complete_status(max_items: u32, threads_form: bool) {
   }
   // the pipeline itself is transparent
   let got = probe.events();
-  match model::compare(&got, &script) {
+  let mut through = script.clone();
+  if pre_collect {
+    through = match &script.term {
+      Tm::Complete => Script { items: vec![Val::L(script.items.clone())], term: Tm::Complete },
+      Tm::Error(x) => Script { items: vec![], term: Tm::Error(x.clone()) },
+      Tm::None => Script { items: vec![], term: Tm::None },
+    };
+  }
+  if post_take && !through.items.is_empty() {
+    through = Script { items: vec![through.items[0].clone()], term: Tm::Complete };
+  }
+  let script_seen = through;
+  match model::compare(&got, &script_seen) {
     Ok(t) => e::check(t, "complete_status/pass-through", || format!("got [{}]", model::show_events(&got))),
     Err(why) => e::fail("complete_status/pass-through", || format!("{} ; got [{}]", why, model::show_events(&got))),
   }
